@@ -26,7 +26,13 @@ def gen_source(rnd, n, speeches):
         k = rnd.random()
         r = "".join(rnd.choice(alpha if rnd.random() < 0.85 else TEXT_KANA) for _ in range(rnd.randint(1, 5)))
         st = "".join(rnd.choice(KANJI + "/;a1") for _ in range(rnd.randint(1, 3)))
-        if k < 0.85:
+        if entries and entries[-1] and k < 0.1:
+            # a homograph: the previous line's reading and written form under another part of speech (解読 サ変名詞 / 一般名詞)
+            prev = entries[-1][0]
+            e = {"reading": prev["reading"], "stem": prev["stem"], "speech": rnd.choice([sp for sp in speeches if sp != prev["speech"]])}
+            lines.append(entry_line(e))
+            entries.append([e])
+        elif k < 0.85:
             sp = rnd.choice(speeches)
             e = {"reading": r, "stem": st, "speech": sp}
             lines.append(entry_line(e))
@@ -122,6 +128,30 @@ def run(tier, seed):
                                    if all(coq_speech(w["speech"]) is not None for w in (got or []))])
                 ccases.append("(%s, %s)" % (cstr(src_text), exp_terms))
                 origin.append(srcs[0][0])
+        # building into an output file that already exists: what is written always reflects the sources given now
+        for _ in range(2 if tier == "quick" else 10):
+            a = [gen_source(rnd, 30, ok_sp) for _ in range(3)]
+            b = [a[0], gen_source(rnd, 30, ok_sp), gen_source(rnd, 30, ok_sp)]        # same standard source, other ancillary / tankan sources
+            out = make_dictionary(wd, a[0][0], a[1][0], a[2][0], name="again.dat")
+            time.sleep(1.1)
+            # only the ancillary and the tankan source change; the standard source file is left untouched (older than the output)
+            for fn, lines in (("anc.dic", b[1][0]), ("tankan.dic", b[2][0])):
+                with open(os.path.join(wd, fn), "w", encoding="utf-8") as f:
+                    f.write("\n".join(lines) + "\n")
+            rc, log_ = sh([DIC_BIN, os.path.join(wd, "std.dic"), os.path.join(wd, "anc.dic"), os.path.join(wd, "tankan.dic"), out], timeout=600)
+            if rc != 0:
+                res.violation(f"chokan-dic fails when its output file already exists: {log_[-300:]}", {"kind": "rebuild"})
+                continue
+            es = [e for grp in b[1][1] for e in grp]
+            forms = harness_parallel([{"op": "dic_conj", "entry": e} for e in es]) if es else []
+            want_keys = sorted({r for f in forms for _, r in f.get("ok", [])})
+            r = harness([{"op": "srv_dic_load", "path": out, "std_probes": [], "anc_probes": want_keys, "tankan_probes": []}], timeout=600)[0]
+            os.unlink(out)
+            if "panic" in r:
+                res.violation(f"the dictionary rebuilt over an existing output cannot be loaded: {r['panic']}", {"kind": "rebuild"})
+            elif sorted(r["anc_keys"]) != want_keys:
+                res.violation(f"after rebuilding into an existing output file with another ancillary source the ancillary readings are those of the OLD build "
+                              f"({len(set(r['anc_keys']) - set(want_keys))} stale, {len(set(want_keys) - set(r['anc_keys']))} missing)", {"kind": "rebuild", "anc_lines": b[1][0][:20]})
         # the refutation witness on the real binary: a format-valid line with an unsupported conjugation row aborts the build
         if bad_sp:
             e = {"reading": "あ", "stem": "亜", "speech": bad_sp[0]}
